@@ -81,37 +81,55 @@ class Family:
 
     # ------------------------------------------------------------ model preds
     def _model_predicates(self) -> Dict[str, List[Tuple[str, ...]]]:
-        """is_xxx(inverter) -> list of tag tuples whose presence in the serial number makes it true."""
+        """is_xxx(inverter) -> the constant tag tuples the predicate (or a helper it calls) consults.  The tuples only
+        serve to enumerate representative serial numbers; the predicate's value for a serial number is obtained by
+        constant-folding the function itself (eval_pred)."""
         out = {}
         mod = self.prog.modules.get("goodwe.model")
         if mod is None:
             raise AnalysisError("goodwe/model.py not found")
+        self._pred_fn = {}
+
+        def tag_lists(fn, depth=0):
+            lists = []
+            for n in ast.walk(fn.node):
+                if isinstance(n, ast.Name) and isinstance(n.ctx, ast.Load):
+                    b = self.prog.lookup(fn.module, n.id)
+                    if b and b[0] == "const":
+                        try:
+                            v = self.prog.consteval(b[1], self.prog._owner_module(fn.module, n.id))
+                        except NotConst:
+                            continue
+                        if isinstance(v, (tuple, list)) and v and all(isinstance(x, str) for x in v):
+                            lists.append(tuple(v))
+                    elif b and b[0] == "func" and depth < 3 and b[1] is not fn:
+                        lists.extend(tag_lists(b[1], depth + 1))
+            return lists
         for name, b in mod.scope.items():
             if b[0] != "func" or not name.startswith("is_"):
                 continue
             fn = b[1]
-            rets = [n for n in ast.walk(fn.node) if isinstance(n, ast.Return)]
-            if len(rets) != 1:
-                raise AnalysisError("model predicate %s has an unexpected shape" % name)
-            lists = []
-            parts = rets[0].value.values if isinstance(rets[0].value, ast.BoolOp) and isinstance(rets[0].value.op, ast.Or) else [rets[0].value]
-            for p in parts:
-                ok = isinstance(p, ast.Call) and isinstance(p.func, ast.Name) and p.func.id == "any" and len(p.args) == 1 and isinstance(p.args[0], ast.GeneratorExp)
-                if ok:
-                    g = p.args[0]
-                    ok = len(g.generators) == 1 and isinstance(g.elt, ast.Compare) and isinstance(g.elt.ops[0], ast.In) \
-                        and norm(g.elt.comparators[0]).endswith(".serial_number")
-                if not ok:
-                    raise AnalysisError("model predicate %s is not any(tag in serial_number ...) (%s)" % (name, fn.loc()))
-                try:
-                    lists.append(tuple(self.prog.consteval(g.generators[0].iter, mod)))
-                except NotConst:
-                    raise AnalysisError("model predicate %s iterates a non-constant list" % name)
+            if len(fn.params) != 1:
+                raise AnalysisError("model predicate %s has an unexpected signature" % name)
+            lists = tag_lists(fn)
+            if not lists:
+                raise AnalysisError("model predicate %s consults no constant tag list (%s)" % (name, fn.loc()))
+            self._pred_fn[name] = fn
             out[name] = lists
         return out
 
     def eval_pred(self, name: str, serial: str) -> bool:
-        return any(any(tag in serial for tag in lst) for lst in self.predicates[name])
+        from .constfold import fold_function
+
+        class _Inv:
+            pass
+        inv = _Inv()
+        inv.serial_number = serial
+        fn = self._pred_fn[name]
+        try:
+            return bool(fold_function(self.prog, fn, args={fn.params[0]: inv}))
+        except NotConst as e:
+            raise AnalysisError("model predicate %s cannot be evaluated for serial number %r: %s" % (name, serial, e))
 
     def used_predicates(self) -> List[str]:
         used = []
